@@ -72,6 +72,11 @@ def handle (fields : List String) : Option String :=
     | some f, some ds => outcome (BalanceCmd.run f ds)
     | none, _ => "bad-flags"
     | _, none => "unsupported")
+  | ["balance-spec", fl, j] => some (
+    match parseFlags fl, (parseJournal j).bind Knut.Driver.C04.toDirectives with
+    | some f, some ds => if f.valuation.isSome then "unsupported" else outcome (BalanceCmd.runSpec f ds)
+    | none, _ => "bad-flags"
+    | _, none => "unsupported")
   | _ => none
 
 end Knut.Driver.Balance
